@@ -19,6 +19,12 @@ Definition tg2_radius (ppf : R -> R) (sigma u : R) : R := sigma * ppf u.
 (* draw_nsphere: fuzz * r * R ** (1 / dims) * x / |x| *)
 Definition ball_radius (root : R -> R) (r fuzz u : R) : R := fuzz * r * root u.
 
+(* FlowProposal.populate sets self.r and then prep_latent_prior() builds the latent sampler for THAT radius, so the k-th
+   population of a proposal object whose radii are rs draws inside (nth k rs) * fuzz.  [stale_sampler_radius] is the
+   variant in which the sampler of the first population is kept for the lifetime of the object (refuted in Props). *)
+Definition sampler_radius (rs : list R) (k : nat) : R := nth k rs 0.
+Definition stale_sampler_radius (rs : list R) (k : nat) : R := nth 0 rs 0.
+
 (* ---- finite rejection sampling over Q -------------------------------------------------------------------- *)
 Local Open Scope Q_scope.
 (* a finite space: each point with its proposal mass q and target mass p *)
